@@ -32,6 +32,12 @@ func NewDG1(data []byte) (dg1 *DG1, err error) {
 		return nil, fmt.Errorf("[NewDG1] error: %w", err)
 	}
 
+	// the file is ONE data object: the outer tag is that of the first object, and anything behind it would be
+	// covered by the hash in the security object but never shown
+	if len(nodes.Nodes()) != 1 {
+		return nil, fmt.Errorf("[NewDG1] file must consist of exactly one data object (found %d)", len(nodes.Nodes()))
+	}
+
 	rootNode := nodes.NodeByTag(DG1Tag)
 
 	if !rootNode.IsValidNode() {
